@@ -72,6 +72,16 @@ TOTW = z3.Function("TOTW", SCh, I)                  # sum of run widths
 COLW = z3.Function("COLW", SC, I)                   # columns occupied by a cell sequence
 
 
+# ------------------------------------------------------------------ terminal columns (C10): spec functions of the column model
+WCW = z3.Function("WCW", I, I)                      # cwcwidth.wcwidth of one code point (assumed dependency contract)
+PREW = z3.Function("PREW", SI, I, I)                # columns occupied by the first i characters of s (prefix sum of WCW)
+BASEF = z3.Function("BASEF", SI, SI)                # the characters of s that occupy columns (width > 0), in order
+BCUT = z3.Function("BCUT", SI, I, I, SI)            # base characters that columns a..b-1 of s show (a cut double-width one as a blank)
+BVIEW = z3.Function("BVIEW", SCh, SC)               # cells of the column-occupying characters of a run list
+RUNCUT = z3.Function("RUNCUT", SCh, I, I, SC)       # cells that columns a..b-1 of a run list show (fold of BCUT over the runs)
+EXTRA_VIEWS = [False]                               # emit BVIEW instances with the VIEW ones (switched on per contract)
+
+
 def clip(x, n):
     return z3.If(x < 0, 0, z3.If(x > n, n, x))
 
@@ -124,17 +134,20 @@ class Lemmas:
     def list_basic(xs):
         return [TOTLEN(xs) == z3.Length(VIEW(xs)), z3.Length(TEXT(xs)) == z3.Length(VIEW(xs)),
                 z3.Implies(z3.Length(xs) == 0, z3.Length(VIEW(xs)) == 0),
-                TOTW(xs) == COLW(VIEW(xs))]
+                TOTW(xs) == COLW(VIEW(xs))] + \
+               ([z3.Implies(z3.Length(xs) == 0, z3.And(z3.Length(BVIEW(xs)) == 0, TOTW(xs) == 0))] if EXTRA_VIEWS[0] else [])
 
     @staticmethod
     def list_empty(e):
-        return [VIEW(e) == z3.Empty(SC), TEXT(e) == z3.Empty(SI), TOTLEN(e) == 0, DROPE(e) == e, TOTW(e) == 0]
+        return [VIEW(e) == z3.Empty(SC), TEXT(e) == z3.Empty(SI), TOTLEN(e) == 0, DROPE(e) == e, TOTW(e) == 0] + \
+               ([BVIEW(e) == z3.Empty(SC)] if EXTRA_VIEWS[0] else [])
 
     @staticmethod
     def list_unit(u, ch):
         s, a = ChunkS.s(ch), ChunkS.atts(ch)
         return [VIEW(u) == CELLS(s, a), TEXT(u) == s, TOTLEN(u) == z3.Length(s),
-                z3.Length(CELLS(s, a)) == z3.Length(s), TOTW(u) == WCS(s)]
+                z3.Length(CELLS(s, a)) == z3.Length(s), TOTW(u) == WCS(s)] + \
+               ([BVIEW(u) == CELLS(BASEF(s), a)] if EXTRA_VIEWS[0] else [])
 
     @staticmethod
     def list_concat(res, parts):
@@ -144,6 +157,7 @@ class Lemmas:
                 TEXT(res) == z3.Concat(*[TEXT(p) for p in parts]),
                 TOTLEN(res) == z3.Sum(*[TOTLEN(p) for p in parts]),
                 TOTW(res) == z3.Sum(*[TOTW(p) for p in parts])] + \
+               ([BVIEW(res) == z3.Concat(*[BVIEW(p) for p in parts])] if EXTRA_VIEWS[0] else []) + \
                [f for p in parts for f in Lemmas.list_basic(p)]
 
     @staticmethod
@@ -161,6 +175,23 @@ class Lemmas:
     def str_concat_cells(res, parts, atts):
         return [CELLS(res, atts) == z3.Concat(*[CELLS(p, atts) for p in parts])] + \
                [z3.Length(CELLS(p, atts)) == z3.Length(p) for p in parts]
+
+    # ---- character lists (list of 1-character strings modelled as the string of their concatenation)
+    @staticmethod
+    def chars_concat(res, x, y):
+        """res == x ++ y: the base-character filter distributes, widths add up (wcswidth = sum of wcwidth, all >= 0)"""
+        return [BASEF(res) == z3.Concat(BASEF(x), BASEF(y)),
+                z3.Implies(z3.And(WCS(x) >= 0, WCS(y) >= 0), WCS(res) == WCS(x) + WCS(y))]
+
+    @staticmethod
+    def chars_unit(u, c):
+        """u is the one-character string with code point c"""
+        return [WCS(u) == WCW(c), BASEF(u) == z3.If(WCW(c) > 0, u, z3.Empty(SI))]
+
+    @staticmethod
+    def chars_spaces(sp, n):
+        """sp == ' ' * n: blanks are one column wide and occupy columns"""
+        return [WCS(sp) == z3.If(n > 0, n, 0), BASEF(sp) == sp]
 
     @staticmethod
     def rep_step(X, i):
